@@ -18,6 +18,7 @@ Definition c02_op (c2 : S2.cfg) (m : M2.cache) (o : op) : M2.cache * rv :=
   | Some o1 => let '(m', out) := M2.step1 c2 m o1 in (m', conv_out o out)
   | None => match o with
             | Copy => (m, RItems (M2.ring m))
+            | Snapshot _ => (m, RItems (sort_items (M2.store m)))
             | _ => (m, RBool true)
             end
   end.
@@ -91,6 +92,9 @@ Section Link.
         rewrite (copy_link tb c s m p (lk_of _ _ _ I PR) R).
         * split; [reflexivity|]. split; [exact I|]. exists p. split; assumption.
         * destruct I as [_ _ _ _ CAP _]. exact CAP.
+      + destruct SF as [I [p [PR R]]].
+        rewrite (snapshot_link tb c s m p w (lk_of _ _ _ I PR) R).
+        split; [reflexivity|]. split; [exact I|]. exists p. split; assumption.
   Qed.
 
   Variable progs : nat -> list op.
